@@ -61,6 +61,7 @@ func verifYield()
 func verifJoin()
 func verifMapOrder(on bool)
 func verifNote(msg string)
+func verifFill(obj interface{}, wide int, tag string) int
 func verifIsReplay() bool
 func verifFmtExact(on bool)
 func verifIteByte(c bool, a, b byte) byte
